@@ -269,3 +269,85 @@ theorem apply_steps (w : List Inst) (op : Op) (j : Nat) (x : Inst) (hx : w[j]? =
     simp [this]
 
 end Mesa.Steps
+
+namespace Mesa.Steps
+
+/-! ### the bodies one call runs, in closed form -/
+
+/-- the levels that define `step`, with their depths, in MRO order -/
+def ovLevels : Hier → Nat → List (Nat × Level)
+  | [], _ => []
+  | L :: rest, d => if L.overrides then (d, L) :: ovLevels rest (d + 1) else ovLevels rest (d + 1)
+
+theorem ovLevels_depths (h : Hier) (d : Nat) : (ovLevels h d).map (·.1) = overriding h d := by
+  induction h generalizing d with
+  | nil => rfl
+  | cons L rest ih => unfold ovLevels overriding; split <;> simp [ih]
+
+theorem ovLevels_get (h : Hier) (d : Nat) : ∀ p ∈ ovLevels h d, d ≤ p.1 ∧ h[p.1 - d]? = some p.2 ∧ p.2.overrides = true := by
+  induction h generalizing d with
+  | nil => simp [ovLevels]
+  | cons L rest ih =>
+    intro p hp
+    unfold ovLevels at hp
+    split at hp
+    · rename_i ho
+      rcases List.mem_cons.mp hp with rfl | hp
+      · simp [ho]
+      · obtain ⟨h1, h2, h3⟩ := ih (d + 1) p hp
+        refine ⟨by omega, ?_, h3⟩
+        have : p.1 - d = (p.1 - (d + 1)) + 1 := by omega
+        rw [this]; simpa using h2
+    · obtain ⟨h1, h2, h3⟩ := ih (d + 1) p hp
+      refine ⟨by omega, ?_, h3⟩
+      have : p.1 - d = (p.1 - (d + 1)) + 1 := by omega
+      rw [this]; simpa using h2
+
+/-- Which bodies run, without recursion: of the levels that define `step` (MRO order) take those in front of the first
+    one that cannot accept the arguments (`def step(self)` reached with arguments); the bodies that run are these up
+    to and including the first that does not call `super().step(...)`; each sees the same counter and the caller's
+    arguments; the call raises `TypeError` iff there are arguments and every body that ran called super. -/
+def chainSpec (h : Hier) (d : Nat) (args : List Int) (s : Nat) : List Entry × Bool :=
+  let good := (ovLevels h d).takeWhile (fun p => args.isEmpty || p.2.takesArgs)
+  let n := (good.takeWhile (fun p => p.2.callsSuper)).length
+  ((good.take (n + 1)).map (fun p => ⟨p.1, s, args⟩), args.isEmpty || decide (n < good.length))
+
+theorem runChain_eq_chainSpec (h : Hier) (d : Nat) (args : List Int) (s : Nat) :
+    runChain h d args s = chainSpec h d args s := by
+  induction h generalizing d with
+  | nil => simp [runChain, chainSpec, ovLevels]
+  | cons L rest ih =>
+    unfold runChain
+    by_cases ho : L.overrides = true
+    · simp only [ho, Bool.not_true, Bool.false_eq_true, if_false]
+      by_cases hacc : (args.isEmpty || L.takesArgs) = true
+      · have hfw : (if L.takesArgs = true then args else []) = args := by
+          by_cases ht : L.takesArgs = true
+          · simp [ht]
+          · have : args.isEmpty = true := by simpa [ht] using hacc
+            simp [ht, List.isEmpty_iff.mp this]
+        have hguard : (!L.takesArgs && !args.isEmpty) = false := by
+          cases hta : L.takesArgs <;> cases hae : args.isEmpty <;> simp_all
+        simp only [hguard, Bool.false_eq_true, if_false]
+        by_cases hcs : L.callsSuper = true
+        · simp only [hcs, if_true, hfw, ih (d + 1)]
+          simp only [chainSpec, ovLevels, ho, if_true, List.takeWhile_cons, hacc, hcs, List.length_cons,
+            List.take_succ_cons, List.map_cons]
+          simp
+        · have hcs' : L.callsSuper = false := by simpa using hcs
+          simp only [hcs', Bool.false_eq_true, if_false]
+          simp [chainSpec, ovLevels, ho, hacc, hcs']
+      · have hacc' : (args.isEmpty || L.takesArgs) = false := by simpa using hacc
+        have hguard : (!L.takesArgs && !args.isEmpty) = true := by
+          cases hta : L.takesArgs <;> cases hae : args.isEmpty <;> simp_all
+        simp only [hguard, if_true]
+        have hae : args.isEmpty = false := by
+          cases hae : args.isEmpty <;> simp_all
+        have hta : L.takesArgs = false := by
+          cases hta : L.takesArgs <;> simp_all
+        simp [chainSpec, ovLevels, ho, hae, hta]
+    · have ho' : L.overrides = false := by simpa using ho
+      simp only [ho', Bool.not_false, if_true, ih (d + 1)]
+      simp [chainSpec, ovLevels, ho']
+
+end Mesa.Steps
